@@ -32,7 +32,8 @@ import "math"
  * Hart et al., Computer Approximations (1968)
  */
 
-func logErfc8(x float64) float64 {
+// erfc(x)*exp(x^2) for x > 8
+func erfcx8(x float64) float64 {
   P := NewPolynomial([]float64{
     2.9788656263939928886200000000,
     7.4097406059647417944250000000,
@@ -49,9 +50,11 @@ func logErfc8(x float64) float64 {
     2.2605285207673269695918669450,
     1.0000000000000000000000000000 })
 
-  e := P.Eval(x)/Q.Eval(x)
-  e  = math.Log(e) - x*x
-  return e
+  return P.Eval(x)/Q.Eval(x)
+}
+
+func logErfc8(x float64) float64 {
+  return math.Log(erfcx8(x)) - x*x
 }
 
 func logErfc0(x float64) float64 {
@@ -73,6 +76,15 @@ func logErfc0(x float64) float64 {
     -0.001429060000000000,
      0.000482040000000000 })
   return -2.0*P.Eval(y)
+}
+
+// Scaled complementary error function erfc(x)*exp(x^2)
+func Erfcx(x float64) float64 {
+  if x > 8.0 {
+    return erfcx8(x)
+  } else {
+    return math.Exp(x*x)*math.Erfc(x)
+  }
 }
 
 func LogErfc(x float64) float64 {
